@@ -166,3 +166,68 @@ func ZZ_C05_BitString() {
 }
 
 func ZZ_C05_regionNegative(v int64) bool { return v < 0 }
+
+type zzPair struct {
+	A int64
+	B bool
+}
+
+type zzSetOfHolder struct {
+	Plain []zzPair  `ber:"tagNum:0"`
+	Set   []zzPair  `ber:"tagNum:1,set"`
+	Ints  []int64   `ber:"tagNum:2,set"`
+	Deep  [][]int64 `ber:"tagNum:3,set,optional"`
+}
+
+// C05 for lists: SEQUENCE OF / SET OF of structures, integers and lists,
+// 0..2 elements each, as members (with the set parameter in the member tag)
+// and as the top-level value (with the parameter string "set").
+//
+//gosx:property=C05 tier=quick unwind=16
+func ZZ_C05_ListsOfStructures() {
+	mk := func(l string, n int) []zzPair {
+		var r []zzPair
+		for i := 0; i < n; i++ {
+			v := vx.Int64(l + ".a")
+			vx.Assume(v >= -128 && v <= 127)
+			r = append(r, zzPair{A: v, B: vx.Bool(l + ".b")})
+		}
+		return r
+	}
+	n := vx.Choice("n", 3)
+	if vx.Choice("toplevel", 2) == 1 {
+		v := mk("e", n)
+		b, err := BerMarshalWithParams(v, "set")
+		vx.Assert("marshal succeeds", err == nil)
+		if err != nil {
+			return
+		}
+		var w []zzPair
+		err = UnmarshalWithParams(b, &w, "set")
+		vx.Assert("unmarshal succeeds", err == nil)
+		if err == nil {
+			vx.Assert("round trip yields an equal value", vx.Equal(v, w))
+		}
+		return
+	}
+	h := zzSetOfHolder{Plain: mk("p", n), Set: mk("s", n), Ints: []int64{}}
+	for i := 0; i < n; i++ {
+		v := vx.Int64("i")
+		vx.Assume(v >= -128 && v <= 127)
+		h.Ints = append(h.Ints, v)
+	}
+	if n == 2 {
+		h.Deep = [][]int64{{1}, {2, 3}}
+	}
+	b, err := BerMarshal(h)
+	vx.Assert("marshal succeeds", err == nil)
+	if err != nil {
+		return
+	}
+	var w zzSetOfHolder
+	err = Unmarshal(b, &w)
+	vx.Assert("unmarshal succeeds", err == nil)
+	if err == nil {
+		vx.Assert("round trip yields an equal value", vx.Equal(h, w))
+	}
+}
